@@ -44,3 +44,30 @@ Proof.
   split; [vm_compute; reflexivity|]. split; [vm_compute; reflexivity|].
   eexists. eexists. split; vm_compute; reflexivity.
 Qed.
+
+(* ---------------------------------------------------------------- end to end on the witness: memoized run, full builder *)
+From TxV Require Model.MultBuild Proofs.PegProofs Proofs.PegMemo Proofs.MultEndProofs.
+Definition wit_attrs : list Build.attr :=
+  [Build.mkAttr [97]%N Build.MPlus true false [73;78;84]%N false; Build.mkAttr [98]%N Build.M1 true false [73;78;84]%N false].
+Definition wit_grp : nat -> nat -> option (nat * nat) := fun _ _ => None.
+Definition first_tree (r : res) : tree := match r with RTree (NT _ (t :: _)) => t | _ => T 0 0 0 false end.
+
+Lemma wit_end :
+  PegProofs.ctx_constant wit_g = true
+  /\ MultBuild.asg_table_okb wit_g wit_mm = true
+  /\ MultEndProofs.top_okb wit_g wit_nid = true
+  /\ MultBuild.mult_agreesb wit_attr wit_body wit_attrs = true
+  /\ PegMemo.not_aborted (run wit_g wit_cfg (orc_of wit_tbl) false 50 wit_input)
+  /\ exists r p e vals,
+       run wit_g wit_cfg (orc_of wit_tbl) true 50 wit_input = Parsed r
+       /\ Build.asg_placed wit_mm false (first_tree r) = true
+       /\ Build.build wit_g wit_mm wit_input wit_grp true false r = Build.BOk (Build.VObj [77;111;100;101;108]%N p e vals)
+       /\ Build.get_val [97]%N vals
+          = Some (Build.VList [Build.VTerm [73;78;84]%N [49]%N; Build.VTerm [73;78;84]%N [50]%N; Build.VTerm [73;78;84]%N [51]%N])
+       /\ Build.get_val [98]%N vals = Some (Build.VDefault [73;78;84]%N).
+Proof.
+  split; [vm_compute; reflexivity|]. split; [vm_compute; reflexivity|]. split; [vm_compute; reflexivity|].
+  split; [vm_compute; reflexivity|]. split; [vm_compute; exact I|].
+  eexists. eexists. eexists. eexists. split; [vm_compute; reflexivity|].
+  split; [vm_compute; reflexivity|]. split; [vm_compute; reflexivity|]. split; vm_compute; reflexivity.
+Qed.
